@@ -25,6 +25,7 @@ type op struct {
 	// (nil: always). False where the length is fixed by the algorithm (digests) or bounded by the key (RSA plaintexts).
 	Sized func(alg, mode string) bool
 	Aad   bool // takes associated data / a label of any length (memCase.AadLen)
+	Doc   bool // takes a key or a certificate as text: the document is a base form (Alg) put through textual transforms (memCase.Text), see keydoc_test.go
 }
 
 func (o op) sized(alg, mode string) bool { return o.Sized == nil || o.Sized(alg, mode) }
@@ -35,14 +36,6 @@ func never(string, string) bool { return false }
 func sigSized(alg, mode string) bool {
 	s, _ := refcrypto.Sig(alg)
 	return s.DigestLen() == 0 || mode == "baddigestsize"
-}
-
-func parseKeySized(alg, _ string) bool {
-	switch alg {
-	case "raw16", "raw32", "jwk-ec", "pem-pkcs8", "pem-pkix":
-		return false
-	}
-	return true
 }
 
 func fixed(m []string) func(string) []string { return func(string) []string { return m } }
@@ -64,9 +57,10 @@ var (
 	padAlgs  = []string{"block-16", "block-8", "block-2", "block-255", "block-32"}
 )
 
-// ops: every exported function of crypto, crypto/aeskw, crypto/padding and
-// crypto/aescbcaead that takes a []byte (the aescbcaead constructors are exercised
-// through Seal/Open: the key they are given is one of the checked arguments).
+// ops: every exported function of crypto, crypto/aeskw, crypto/padding, crypto/aescbcaead and crypto/pem
+// that takes a []byte - as a parameter, behind a jwk.Key, or as a key type that is a []byte (the aescbcaead
+// constructors are exercised through Seal/Open - the key they are given is one of the checked arguments - and,
+// for their failure paths, on their own).
 var ops = []op{
 	{Name: "crypto.EncryptSymmetric", Algs: symAlgs, Modes: symEncModes, Run: func(k *call) { k.symEnc("sym") }, PkArg: symEncArgs, Aad: true},
 	{Name: "crypto.Encrypt", Algs: symAlgs, Modes: symEncModes, Run: func(k *call) { k.symEnc("generic") }, PkArg: symEncArgs, Aad: true},
@@ -78,7 +72,14 @@ var ops = []op{
 	{Name: "crypto.Decrypt(rsa)", Algs: rsaAlgs, Modes: fixed(rsaDecModes), Run: func(k *call) { k.rsaDec("generic") }, Heavy: true, PkArg: rsaDecArgs, Sized: never, Aad: true},
 	{Name: "crypto.SignPrivateKey", Algs: sigAlgs, Modes: fixed(signModes), Run: func(k *call) { k.sign() }, Heavy: true, Sized: sigSized},
 	{Name: "crypto.VerifyPublicKey", Algs: sigAlgs, Modes: fixed(verifyModes), Run: func(k *call) { k.verify() }, Heavy: true, PkArg: []string{"digest", "signature"}, Sized: func(alg, _ string) bool { return sigSized(alg, "") }},
-	{Name: "crypto.ParseKey", Algs: parseKeyFormats, Modes: fixed(parseKeyModes), Run: func(k *call) { k.parseKey() }, Sized: parseKeySized},
+	{Name: "crypto.ParseKey", Algs: docFormNames(nil), Modes: fixed(parseKeyModes), Run: func(k *call) { k.parseKey() }, Sized: docSized, Doc: true},
+	{Name: "crypto.SerializeKey", Algs: serializeAlgs, Modes: fixed([]string{"ok"}), Run: func(k *call) { k.serializeKey() }, Sized: func(alg, _ string) bool { return alg == "oct" }},
+	{Name: "pem.DecodePEMCertificates", Algs: pemDocAlgs, Modes: fixed([]string{"call"}), Run: func(k *call) { k.pemDecode("certs") }, Sized: docSized, Doc: true},
+	{Name: "pem.DecodePEMCertificatesChain", Algs: pemDocAlgs, Modes: fixed([]string{"call"}), Run: func(k *call) { k.pemDecode("chain") }, Sized: docSized, Doc: true},
+	{Name: "pem.DecodePEMPrivateKey", Algs: pemDocAlgs, Modes: fixed([]string{"call"}), Run: func(k *call) { k.pemDecode("key") }, Sized: docSized, Doc: true},
+	{Name: "pem.PublicKeysEqual", Algs: []string{"ed25519"}, Modes: fixed(keysEqualModes), Run: func(k *call) { k.publicKeysEqual() }, PkArg: []string{"a", "b"}, Sized: never},
+	{Name: "pem.EncodePrivateKey", Algs: []string{"ed25519"}, Modes: fixed(encodeKeyModes), Run: func(k *call) { k.encodePrivateKey() }, Sized: never},
+	{Name: "aescbcaead.New", Algs: aeadAlgs, Modes: fixed(ctorModes), Run: func(k *call) { k.aeadNew() }, Sized: never},
 	{Name: "aeskw.Wrap", Algs: kekAlgs, Modes: fixed(wrapModes), Run: func(k *call) { k.wrap() }},
 	{Name: "aeskw.Unwrap", Algs: kekAlgs, Modes: fixed(unwrapModes), Run: func(k *call) { k.unwrap() }},
 	{Name: "padding.PadPKCS7", Algs: padAlgs, Modes: fixed(padModes), Run: func(k *call) { k.pad() }},
@@ -139,6 +140,7 @@ func runMem(c memCase) (string, caseStat, *arena) {
 	st.nontrivial = k.reached && k.a.anySpare()
 	st.classes = append(st.classes, "op."+c.Op, "mode."+c.Mode)
 	st.classes = append(st.classes, lay...)
+	st.classes = append(st.classes, k.classes...)
 	if len(c.Pack) > 0 {
 		st.classes = append(st.classes, "cap."+c.Cap)
 	}
@@ -205,6 +207,9 @@ func TestMemSweep(t *testing.T) {
 				if o.Heavy {
 					lens = []int{0, 17, 32}
 				}
+				if o.Doc && !o.sized(alg, mode) {
+					lens = []int{17} // a fixed document: the length plays no part
+				}
 				for _, l := range lens {
 					for si, sp := range sweepSpares {
 						dsts := []string{""}
@@ -260,6 +265,9 @@ func drawCase(rt *rapid.T, o op, big int) memCase {
 		c.DstLen = rapid.IntRange(0, 20).Draw(rt, "dstLen")
 	}
 	c.NilEmpty = rapid.Bool().Draw(rt, "nilEmpty")
+	if o.Doc {
+		c.Text = drawText(rt)
+	}
 	if o.Pk >= 2 && rapid.Bool().Draw(rt, "packed") {
 		idx := make([]int, o.Pk)
 		for i := range idx {
